@@ -1355,3 +1355,172 @@ def rule_contiguous_fallback_excludes_external(ctx):
             ctx.violated("EXTNOTHERE", key, f.where(), "storage kinds are told apart by access_rec->special (%s) and the rest is described with Hoffset/Hlength, but SPECIAL_EXT is never tested: an external element is reported as a block of this file" % ", ".join(sorted(tests_special)))
     ctx.floor("EXTNOTHERE", 1, n, "(data-information routines with a contiguous fallback)")
     return n
+
+
+def rule_reload_after_setlength(ctx):
+    """RELOAD (C01): Hsetlength gives a never-written element its place in the file: the descriptor's offset and length change
+    from "none" (-1) to real values.  A routine that had read the descriptor into locals (HTPinquire(.., &off, &len)) before it
+    called Hsetlength reads it again afterwards, in the same block, before those locals are used: HLconvert otherwise builds
+    the linked-block header from a length of -1, and the converting handle writes every byte one position off from where all
+    later handles read it."""
+    from .codec import ast_walk
+    prog = ctx.prog
+    n = 0
+    for f in prog.lib_funcs():
+        ast = f.raw.get("ast")
+        if not ast or not f.rel.startswith("hdf/src/"):
+            continue
+        names = [c[1] for _b, _i, _s, c in f.calls()]
+        if "Hsetlength" not in names or "HTPinquire" not in names:
+            continue
+        found = []
+        state = {"inq": False}
+
+        def vis(nd, st):
+            if nd[0] in ("s", "if") and nd[1] is not None and any(c[1] == "HTPinquire" and any(kind(strip(a)) == "addr" for a in c[3]) for c in calls_in(nd[1], True)):
+                state["inq"] = True
+            if nd[0] == "block":
+                kids = nd[1]
+                for i, k in enumerate(kids):
+                    if k[0] in ("s", "if") and k[1] is not None and any(c[1] == "Hsetlength" for c in calls_in(k[1], True)):
+                        later = any(k2[0] in ("s", "if") and k2[1] is not None and any(c[1] == "HTPinquire" for c in calls_in(k2[1], True)) for k2 in kids[i + 1:])
+                        found.append((k, later, state["inq"]))
+            return True
+
+        ast_walk(ast, vis)
+        for i, (k, later, before) in enumerate(found, 1):
+            if not before:
+                continue      # nothing had been loaded yet
+            n += 1
+            key = "RELOAD:%s#%d" % (f.name, i)
+            line = k[-3] if isinstance(k[-3], int) else f.line
+            if later:
+                ctx.holds("RELOAD", key, f.where(line), "the descriptor is inquired again after Hsetlength has given the element its place", nontrivial=True)
+            else:
+                ctx.violated("RELOAD", key, f.where(line), "the descriptor was read into locals before this Hsetlength and is not read again after it: the locals still hold the 'no offset, no length' of a never-written element")
+    ctx.floor("RELOAD", 1, n, "(Hsetlength calls in routines that keep the descriptor in locals)")
+    return n
+
+
+def rule_diskblock_moveto(ctx):
+    """MOVETO (C02): HPgetdiskblock(file, len, moveto) reserves `len` bytes at the end of the file and, only if `moveto` is
+    TRUE, positions the stream there.  A caller that goes on to write the block with a bare HP_write (no HPseek of its own in
+    between) passes TRUE; with FALSE the record is written wherever the stream happens to stand - on top of a neighbouring
+    element - while the descriptor is updated to point at the reserved, never written block."""
+    prog = ctx.prog
+    n = 0
+    for f in prog.lib_funcs():
+        k = 0
+        for bid, b in f.blocks.items():
+            for i, s in enumerate(b["s"]):
+                for c in calls_in(s["e"]):
+                    if c[1] != "HPgetdiskblock" or len(c[3]) < 3:
+                        continue
+                    k += 1
+                    n += 1
+                    key = "MOVETO:%s#%d" % (f.name, k)
+                    line = s.get("l", f.line)
+                    mv = strip(c[3][2])
+                    if not is_int(mv):
+                        ctx.holds("MOVETO", key, f.where(line), "the move-to flag is `%s` (decided by the caller)" % render(mv)[:30], nontrivial=False)
+                        continue
+                    if int_val(mv) != 0:
+                        ctx.holds("MOVETO", key, f.where(line), "the stream is positioned at the reserved block", nontrivial=True)
+                        continue
+                    # FALSE: the next transfer on every path must be preceded by an HPseek
+                    seen, bad = set(), None
+                    stack = [(bid, i + 1)]
+                    while stack and bad is None:
+                        bb, ii = stack.pop()
+                        if (bb, ii) in seen:
+                            continue
+                        seen.add((bb, ii))
+                        blk = f.blocks.get(bb)
+                        if not blk:
+                            continue
+                        stop = False
+                        for j in range(ii, len(blk["s"])):
+                            for c2 in calls_in(blk["s"][j]["e"]):
+                                if c2[1] in ("HPseek", "HEpush"):
+                                    stop = True
+                                elif c2[1] in ("HP_write", "HP_read") and not stop:
+                                    bad = blk["s"][j].get("l", line)
+                                    stop = True
+                            if stop:
+                                break
+                        if not stop:
+                            for su in blk["succ"]:
+                                if su >= 0:
+                                    stack.append((su, 0))
+                    if bad:
+                        ctx.violated("MOVETO", key, f.where(line), "the block is reserved without positioning the stream (moveto FALSE) and line %d transfers with no HPseek in between: the bytes land wherever the stream stood" % bad)
+                    else:
+                        ctx.holds("MOVETO", key, f.where(line), "moveto is FALSE and every transfer that follows is preceded by its own HPseek", nontrivial=True)
+    ctx.floor("MOVETO", 3, n, "(disk block reservations)")
+    return n
+
+
+def rule_open_ignores_physical_size(ctx):
+    """OPENSIZE (C17): a crash during the flush can leave a descriptor that points past the physical end of the file (the
+    descriptor blocks are written before the byte that extends the file).  Such a file must still open - every *old* object
+    is intact - so the routine that reads the descriptor blocks at open (HTPstart) never asks how long the file physically is
+    (no seek to the end, no ftell) and so cannot turn that state into a refusal of the whole file."""
+    prog = ctx.prog
+    f = prog.func("HTPstart")
+    if f is None:
+        ctx.unrecognised("OPENSIZE", "OPENSIZE:HTPstart", "-", "HTPstart not found")
+        return 0
+    bad = None
+    for _b, _i, s, x in f.nodes(True):
+        if x[0] == "call" and x[1] in ("ftell", "ftello", "fstat", "stat", "lseek"):
+            bad = (s.get("l", f.line), x[1])
+        if x[0] == "call" and x[1] in ("fseek", "fseeko") and len(x[3]) > 2 and is_int(x[3][2]) and int_val(x[3][2]) == 2:
+            bad = (s.get("l", f.line), "fseek(.., SEEK_END)")
+    if bad:
+        ctx.violated("OPENSIZE", "OPENSIZE:HTPstart", f.where(bad[0]), "HTPstart asks for the physical size of the file (%s): a descriptor left pointing past the end by an interrupted flush can now make the open fail, and with it every object stored before" % bad[1])
+    else:
+        ctx.holds("OPENSIZE", "OPENSIZE:HTPstart", f.where(), "HTPstart reads the descriptor blocks without consulting the physical size of the file", nontrivial=True)
+    ctx.floor("OPENSIZE", 1, 1, "(the routine that reads the descriptor blocks at open)")
+    return 1
+
+
+def rule_new_block_header_nil(ctx):
+    """NEWBLOCKNIL (C17): HTInew_dd_block writes a new descriptor block to the file before anything links to it, so that a
+    crash in between leaves a valid chain.  Valid means: the header it writes says "no successor" - the next-block field is
+    encoded from the constant 0, not from a variable (least of all the block's own offset, which would make the on-disk chain
+    loop as soon as the predecessor's link is flushed and the open never terminate)."""
+    from .codec import ast_walk
+    prog = ctx.prog
+    f = prog.func("HTInew_dd_block")
+    if f is None or not f.raw.get("ast"):
+        ctx.unrecognised("NEWBLOCKNIL", "NEWBLOCKNIL:HTInew_dd_block", "-", "HTInew_dd_block not found")
+        return 0
+    order = []
+    ast_walk(f.raw["ast"], lambda nd, st: (order.append(nd) if nd[0] in ("s", "if") and nd[1] is not None else None, True)[1])
+    # the header is what is encoded through the byte pointer before the first HP_write
+    srcs = []
+    for nd in order:
+        if any(c[1] == "HP_write" for c in calls_in(nd[1], True)):
+            break
+        for x in walk(nd[1], True):
+            if x[0] == "asg" and x[1] == "=" and kind(strip(x[2])) == "deref":
+                # *p++ = (uint8)(((uint32)(V) >> 24) & 0xff)
+                vs = [y for y in walk(x[3], True) if y[0] in ("var", "mem")]
+                shifts = [y for y in walk(x[3], True) if y[0] == "bin" and y[1] == ">>"]
+                ints = [y for y in walk(x[3], True) if y[0] == "int"]
+                srcs.append((nd, vs, shifts, ints))
+    bad = None
+    four = 0
+    for nd, vs, shifts, ints in srcs:
+        if any(is_int(sh[3]) and int_val(sh[3]) == 24 for sh in shifts):
+            four += 1
+            if vs:
+                bad = (nd, render(vs[0]))
+    line = f.line
+    if bad:
+        line = bad[0][-3] if isinstance(bad[0][-3], int) else f.line
+        ctx.violated("NEWBLOCKNIL", "NEWBLOCKNIL:HTInew_dd_block", f.where(line), "the next-block field of the header written for a new descriptor block is encoded from `%s`, not from 0: on disk the block names a successor before it has one" % bad[1][:30])
+    else:
+        ctx.holds("NEWBLOCKNIL", "NEWBLOCKNIL:HTInew_dd_block", f.where(line), "the 32-bit next-block field of the new block's header is encoded from a constant", nontrivial=True)
+    ctx.floor("NEWBLOCKNIL", 1, 1, "(header of a freshly created descriptor block)")
+    return 1
